@@ -41,6 +41,23 @@ func VerifC11AuthorizerLimits() {
 		return
 	}
 	a.AddPolicy(DefaultAllowPolicy)
+	if vChoose("via", 2) == 1 {
+		// limits also bind evaluations started by Query: k facts added by the caller, no token content yet
+		vLabel("via Query")
+		k := 1 + vChoose("query-facts", 3)
+		for i := 0; i < k; i++ {
+			a.AddFact(Fact{Predicate{Name: "z", IDs: []Term{Integer(i)}}})
+		}
+		_, qerr := a.Query(Rule{Head: Predicate{Name: "out", IDs: []Term{Variable("v")}}, Body: []Predicate{{Name: "z", IDs: []Term{Variable("v")}}}})
+		vCover("queried")
+		vAssert(vImplies(k > maxFacts, qerr != nil), "C11.query-fact-limit-honoured")
+		vAssert(vImplies(maxIter < 1, qerr != nil), "C11.query-iteration-limit-honoured")
+		vAssert(vImplies(qerr == nil, vAnd(k <= maxFacts, maxIter >= 1)), "C11.query-success-within-limits")
+		if qerr != nil {
+			vAssert(vOr(errors.Is(qerr, datalog.ErrWorldRunLimitMaxFacts), errors.Is(qerr, datalog.ErrWorldRunLimitMaxIterations)), "C11.query-limit-sentinel")
+		}
+		return
+	}
 	aerr := a.Authorize()
 	vCover("authorized")
 	// the authority world ends with nAuth facts, the block world with nAuth+1, no rules: one iteration each
